@@ -10,6 +10,10 @@ from vt.common import Sub, Violation, require
 from vt.build import close, require_consistent
 from vt.props.c12 import reference_generator
 
+# numeric parameters are handed over as python ints, python floats or numpy scalars (integer-valued parameters are common:
+# alpha=1, J=1, ...)
+NUM = lambda lo, hi: st.one_of(st.integers(int(np.ceil(lo)), int(np.floor(hi))), st.floats(lo, hi), st.floats(lo, hi))
+
 PROPERTY_ID = 'C13'
 
 RULE = ('Model sizes are enumerated over everything that fits (co_oxidation order 2..6, signaling_cascade d 2..4, toll_station '
@@ -89,7 +93,7 @@ def markov_case(draw):
         c['lanes'] = draw(st.integers(2, 5))
         c['cars'] = draw(st.integers(1, 3))
     else:
-        c['k'] = [draw(st.floats(0.01, 10.0)) for _ in range(3)]
+        c['k'] = [draw(st.one_of(st.integers(1, 10), st.floats(0.01, 10.0))) for _ in range(3)]
         c['m'] = draw(st.sampled_from([1, 2, 2, 3]))
     return c
 
@@ -239,12 +243,12 @@ def physics_case(draw):
     c = {'model': model, 'seed': draw(gen.SEED)}
     if model == 'exciton_chain':
         c['n'] = draw(st.integers(2, 7))
-        c['alpha'] = draw(st.floats(-2, 2))
-        c['beta'] = draw(st.floats(-2, 2))
+        c['alpha'] = draw(NUM(-2, 2))
+        c['beta'] = draw(NUM(-2, 2))
     elif model == 'ising':
         c['d'] = draw(st.integers(2, 8))
-        c['J'] = draw(st.floats(-2, 2))
-        c['h'] = draw(st.floats(-2, 2))
+        c['J'] = draw(NUM(-2, 2))
+        c['h'] = draw(NUM(-2, 2))
     elif model == 'fpu':
         c['d'] = draw(st.integers(3, 6))
     else:
@@ -278,6 +282,8 @@ def body_physics(case):
         close(M, M.conj().T, 1e-12, max(abs(a), abs(b), 1e-3) * n, 'exciton_hermitian', 'Hermitian')
         if n != 5:
             lab.add('other_size')
+        if isinstance(a, int) or isinstance(b, int):
+            lab.add('int_parameter')
     elif model == 'ising':
         d, J, h = case['d'], case['J'], case['h']
         t = mdl.ising(d, J, h)
@@ -310,6 +316,9 @@ def body_physics(case):
     else:
         d = case['d']
         w = rng.uniform(-5, 5, d)
+        if case['seed'] % 3 == 0:
+            w = np.rint(w).astype(np.int64)            # integer-typed natural frequencies
+            lab.add('int_parameter')
         t = mdl.kuramoto_coefficients(d, w.copy())
         require_consistent(t, 'consistent')
         require(t.order == 3 and t.row_dims == [d + 1, d + 1, d] and t.col_dims == [1, 1, 1], 'dims', 'dims of kuramoto_coefficients')
@@ -363,14 +372,17 @@ def body_fractal(case):
     if model == 'rgb_fractal':
         rng = np.random.default_rng(case['seed'])
         n = case['n']
-        mats = [rng.integers(0, 2, (n, n)).astype(float) for _ in range(3)]
+        # primaries are handed over independently as integer-typed 0/1 patterns or as fractional float matrices
+        mats = [rng.integers(0, 2, (n, n)).astype(np.int64) if rng.random() < 0.5 else rng.uniform(0, 1, (n, n)) for _ in range(3)]
+        if len({m_.dtype.kind for m_ in mats}) > 1:
+            lab.add('mixed_dtype_primaries')
         f = mdl.rgb_fractal(mats[0].copy(), mats[1].copy(), mats[2].copy(), level)
         require(isinstance(f, np.ndarray) and f.shape == (n ** level, n ** level, 3), 'rgb_shape', 'shape %s' % (getattr(f, 'shape', None),))
         for c in range(3):
             k = np.ones((1, 1))
             for _ in range(level):
                 k = np.kron(k, mats[c])
-            close(f[:, :, c], k, 1e-14, 1.0, 'rgb_value', 'channel %d vs Kronecker power' % c)
+            close(f[:, :, c], k, 1e-13, 1.0, 'rgb_value', 'channel %d vs Kronecker power' % c)
         lab.add('other_size')
         return lab
     dim = case['dimension']
@@ -432,8 +444,8 @@ def large_case(draw):
         c['k'] = draw(st.integers(6, 9))
     elif model == 'exciton_chain':
         c['n'] = draw(st.integers(8, 14))
-        c['alpha'] = draw(st.floats(-2, 2))
-        c['beta'] = draw(st.floats(-2, 2))
+        c['alpha'] = draw(NUM(-2, 2))
+        c['beta'] = draw(NUM(-2, 2))
     else:
         c['d'] = draw(st.integers(9, 14))
         c['J'] = draw(st.floats(-2, 2))
@@ -503,7 +515,7 @@ def body_large(case):
 
 
 def nt(labels):
-    return bool({'other_size', 'non_default_option', 'random_rates'} & set(labels))
+    return bool({'other_size', 'non_default_option', 'random_rates', 'int_parameter', 'mixed_dtype_primaries'} & set(labels))
 
 
 SUBCHECKS = [
